@@ -61,11 +61,88 @@ theorem commits_commute (w : W) (c1 c2 : Nat) (n1 n2 : String)
   by_cases a : t1.prefix_ = p <;> by_cases b : t2.prefix_ = p <;> simp [lookup_insert, a, b]
   · exact absurd (a.trans b.symm) hp
 
+/-- **a table name is registered once**: whatever else the connections do in between (any
+    statements that do not drop it), after one connection's CREATE of a name succeeded every other
+    CREATE of that name is refused — check and registration are one atomic step (`registerAtomic`),
+    so no interleaving lets two connections both own the name -/
+theorem create_same_name_once (w : W) (c1 : Nat) (n p1 : String)
+    (h1 : (step w c1 (.create n p1)).2 = .ok)
+    (mid : List (Nat × Stmt)) (hmid : ∀ x ∈ mid, x.2 ≠ .drop n)
+    (c2 : Nat) (p2 : String) :
+    (step (mid.foldl (fun w x => (step w x.1 x.2).1) (step w c1 (.create n p1)).1) c2 (.create n p2)).2 = .err := by
+  have reg : ∀ (w : W), (lookup n w.registry).isSome →
+      ∀ (c : Nat) (s : Stmt), s ≠ .drop n → (lookup n (step w c s).1.registry).isSome := by
+    intro w hw c s hs
+    cases s with
+    | create name pfx =>
+      simp only [step]
+      cases hl : lookup name w.registry with
+      | some t => simpa using hw
+      | none =>
+        by_cases hn : name = n
+        · subst hn; simp [lookup_insert]
+        · simp only [lookup_insert]; simp [hn, hw]
+    | insert name k v =>
+      simp only [step]
+      cases hl : lookup name w.registry with
+      | none => simpa using hw
+      | some t =>
+        by_cases ho : t.owner = c
+        · by_cases hn : name = n
+          · subst hn; simp [ho, lookup_insert]
+          · simp only [ho, if_true, lookup_insert]; simp [hn, hw]
+        · simpa [ho] using hw
+    | commit name =>
+      simp only [step]
+      cases hl : lookup name w.registry with
+      | none => simpa using hw
+      | some t => by_cases ho : t.owner = c <;> simpa [ho] using hw
+    | refresh name =>
+      simp only [step]
+      cases hl : lookup name w.registry with
+      | none => simpa using hw
+      | some t =>
+        by_cases ho : t.owner = c
+        · by_cases hn : name = n
+          · subst hn; simp [ho, lookup_insert]
+          · simp only [ho, if_true, lookup_insert]; simp [hn, hw]
+        · simpa [ho] using hw
+    | setWriteTime wt => simpa [step] using hw
+    | drop name =>
+      have hn : name ≠ n := fun e => hs (by rw [e])
+      simp only [step]
+      cases hl : lookup name w.registry with
+      | none => simpa using hw
+      | some t =>
+        by_cases ho : t.owner = c
+        · simp only [ho, if_true, lookup_erase]; simp [hn, hw]
+        · simpa [ho] using hw
+  have h0 : (lookup n (step w c1 (.create n p1)).1.registry).isSome := by
+    simp only [step] at h1 ⊢
+    cases hl : lookup n w.registry with
+    | some t => rw [hl] at h1; simp at h1
+    | none => simp [lookup_insert]
+  have hfold : ∀ (l : List (Nat × Stmt)) (w : W), (∀ x ∈ l, x.2 ≠ .drop n) → (lookup n w.registry).isSome →
+      (lookup n (l.foldl (fun w x => (step w x.1 x.2).1) w).registry).isSome := by
+    intro l
+    induction l with
+    | nil => intro w _ hw; simpa using hw
+    | cons x xs ih =>
+      intro w hx hw
+      simp only [List.foldl_cons]
+      exact ih _ (fun y hy => hx y (List.mem_cons_of_mem _ hy)) (reg w hw x.1 x.2 (hx x List.mem_cons_self))
+  have := hfold mid _ hmid h0
+  generalize mid.foldl (fun w x => (step w x.1 x.2).1) (step w c1 (.create n p1)).1 = w' at this ⊢
+  cases hl : lookup n w'.registry with
+  | none => rw [hl] at this; simp at this
+  | some t => simp [step, hl]
+
 /-- the shared state of the process, as found in the source on this run, and that every access
     to it is under its mutex -/
 theorem shared_state_facts :
     F.sharedGlobals = ["open.go:inMemoryBucket", "open.go:inMemoryS3", "vtable_common.go:tables",
-      "writetime/context.go:i", "writetime/context.go:key"] ∧ F.sharedGlobalsLocked = true := by
+      "writetime/context.go:i", "writetime/context.go:key"] ∧ F.sharedGlobalsLocked = true ∧
+    F.registerAtomic = true := by
   decide
 
 end S3db.Props.C19
